@@ -1,4 +1,4 @@
-import DoitModel.Proofs.RunPar
+import DoitModel.Proofs.RunClosure2
 /-! # C02 — each needed task is processed exactly once; nothing else runs
 
 Property theorems only (model: `Model/Run.lean`; invariants: `Proofs/Run*.lean`).
@@ -71,6 +71,45 @@ theorem C02_job_accounting (inp : RunInput) (s : Sys) (hr : PReach inp s) (t : N
   have := (h3.q1 t hq).1
   have := (h3.w1 w t hw).2.1
   omega
+
+/-- nothing outside the closure of the selection is ever touched: every event of a run — `get_status`, the skip /
+    failure / success reports, `execute_task`, action start and end, teardown — names a member of `Cl inp`, the least
+    set containing the selection and closed under task_dep, calc_dep, what a member delivers as calc result, and the
+    setup-tasks of members that are neither ignored nor up-to-date (`MayRun`).  (`Cl` is static: it over-approximates
+    the run-dependent closure that the monitor `monC02InsideClosure` computes from a trace.) -/
+def InsideClosure (inp : RunInput) (reach : Sys → Prop) : Prop :=
+  ∀ s, reach s → ∀ e ∈ s.events, ∀ t : Name, Ev.mentions t e = true → Cl inp t
+
+theorem C02_inside_closure_serial (inp : RunInput) : InsideClosure inp (Reach inp) :=
+  fun _ hr e he t ht => (reach_minv hr).ev e he t ht
+
+theorem C02_inside_closure_parallel (inp : RunInput) : InsideClosure inp (PReach inp) :=
+  fun _ hr e he t ht => (preach_minv hr).ev e he t ht
+
+/-- also no node is created, no job queued and no worker occupied for a task outside the closure -/
+theorem C02_no_outside_work (inp : RunInput) (s : Sys) (hr : PReach inp s) :
+    (∀ t nd, s.nodes t = some nd → Cl inp t) ∧ (∀ t, Job.task t ∈ s.jobQ → Cl inp t) ∧
+    (∀ w t, s.workers w = .running t → Cl inp t) :=
+  ⟨fun t nd h => ((preach_minv hr).nodes t nd h).self, (preach_minv hr).jobs, (preach_minv hr).wk⟩
+
+/-- task `0` is selected, up-to-date, and has the setup-task `1` -/
+def exUtd : RunInput :=
+  { taskDep := fun _ => [], calcDep := fun _ => [], setup := fun n => if n = 0 then [1] else [],
+    sel := [0], statusOf := fun _ => .utd }
+
+/-- the setup-tasks of a task that is up-to-date (or ignored) are not in the closure on its account, so by
+    `C02_inside_closure` they are never started: the closure is not trivially everything -/
+theorem C02_closure_excludes_lazy_setup : ¬ Cl exUtd 1 := by
+  intro h
+  have key : ∀ t, Cl exUtd t → t = 0 := by
+    intro t ht
+    induction ht with
+    | ofSel h => simpa [exUtd] using h
+    | ofTask _ h => simp [exUtd] at h
+    | ofCalc _ h => simp [exUtd] at h
+    | ofSetup _ hm _ => simp [MayRun, effStatus, exUtd] at hm
+    | ofRes _ h => simp [exUtd] at h
+  have := key 1 h; cases this
 
 /-! ### non-vacuity -/
 
